@@ -20,7 +20,8 @@ NewVi(regnames, marknames) ==
      pcol |-> 0,                      \* column asked for by |
      soset |-> FALSE, so |-> 0,       \* line offset of the last search ("/re/+1")
      ai |-> TRUE,
-     rows |-> 23, top |-> 0,          \* text rows of the window; first row shown (free: bound from the trace)
+     rows |-> 23, top |-> 0,          \* text rows of the window; first row shown
+     scroll |-> 0,                    \* the count remembered by ^D / ^U
      msg |-> "", ok |-> TRUE]
 
 NR(vs) == NLines(vs.ed)
@@ -504,6 +505,30 @@ WFix(vs) ==      \* vi_wfix() and the column bookkeeping after a command that re
         t1 == IF vs.top > row THEN (IF vs.top - h > row THEN Max2(0, row - h) ELSE row) ELSE vs.top
         t2 == IF t1 + vs.rows <= row THEN (IF t1 + vs.rows + h <= row THEN row - h ELSE row - vs.rows + 1) ELSE t1
     IN [vs EXCEPT !.row = row, !.off = off, !.top = t2]
+(* ---- scrolling (^E ^Y ^D ^U ^F ^B, z<CR> z. z-): the window moves, the cursor follows it --------------------------- *)
+ScrollCol(key) == key \in {"^F", "^B", "^D", "^U"}        \* these put the cursor on the first non-blank (and report a column change)
+Scroll(vs, key, c1) ==
+    LET n == NR(vs)  rows == vs.rows  top == vs.top  row == vs.row
+        cnt == Max2(1, c1)
+        Place(r, t) == LET l == FL(vs, r) IN
+                       [vs EXCEPT !.row = r, !.top = t, !.off = IF ScrollCol(key) THEN Indents(l) ELSE Col2Off(l, vs.xcol)]
+        Fwd(k) == IF top >= n - 1 THEN [vs EXCEPT !.ok = FALSE] ELSE LET t == Min2(n - 1, top + k) IN Place(Max2(row, t), t)
+        Bwd(k) == IF top = 0 THEN [vs EXCEPT !.ok = FALSE] ELSE LET t == Max2(0, top - k) IN Place(Min2(row, t + rows - 1), t)
+        sc == IF c1 > 0 THEN c1 ELSE vs.scroll
+        half == IF sc > 0 THEN sc ELSE rows \div 2
+        zn == IF c1 > 0 THEN c1 ELSE row
+    IN CASE key = "^F" -> Fwd(cnt * (rows - 1))
+         [] key = "^B" -> Bwd(cnt * (rows - 1))
+         [] key = "^E" -> Fwd(cnt)
+         [] key = "^Y" -> Bwd(cnt)
+         [] key = "^U" -> IF row = 0 THEN [vs EXCEPT !.ok = FALSE]
+                          ELSE [Place(Max2(0, row - half), IF top > 0 THEN Max2(0, top - half) ELSE top) EXCEPT !.scroll = sc]
+         [] key = "^D" -> IF row = n - 1 \/ n = 0 THEN [vs EXCEPT !.ok = FALSE]
+                          ELSE [Place(Min2(Max2(0, n - 1), row + half), IF top < n - rows THEN Min2(n - rows, top + half) ELSE top) EXCEPT !.scroll = sc]
+         [] key = "zn" -> [vs EXCEPT !.top = zn]
+         [] key = "z." -> [vs EXCEPT !.top = Max2(0, zn - rows \div 2)]
+         [] key = "z-" -> [vs EXCEPT !.top = Max2(0, zn - rows + 1)]
+
 ViCmd(vs0, c) ==
     LET vs == [vs0 EXCEPT !.ok = TRUE, !.ed.out = <<>>,
                           !.ed.lb.aux = IF c.k = "mot" THEN vs0.ed.lb.aux ELSE vs0.off]     \* lbuf_mark(xb, '^', xrow, xoff)
@@ -531,11 +556,12 @@ ViCmd(vs0, c) ==
                                   ELSE LET e == lb.hist[lb.hu] IN
                                        [vs EXCEPT !.ed.lb = lb, !.row = e.pos, !.off = e.aux, !.ed.marks = Unknown(vs.ed.marks)]
                 [] c.k = "m"   -> IF c.ch \in DOMAIN vs.ed.marks THEN SetMark(vs, c.ch, vs.row, vs.off) ELSE vs
+                [] c.k = "scr" -> Scroll(vs, c.key, c.c1)
         v2 == WFix(v1)
         l  == FL(v2, v2.row)
         (* the sticky column follows the cursor after every command that reports a change of the screen; motions set
            it themselves; a yank, a mark and a failed command report nothing *)
-        quiet == c.k = "mot" \/ c.k \in {"m", "Y"} \/ (c.k = "op" /\ c.op = "y") \/ ~v1.ok
+        quiet == c.k = "mot" \/ c.k \in {"m", "Y"} \/ (c.k = "op" /\ c.op = "y") \/ ~v1.ok \/ (c.k = "scr" /\ ~ScrollCol(c.key))
         v3 == IF quiet THEN v2 ELSE [v2 EXCEPT !.xcol = Off2Col(l, v2.off)]
     IN [v3 EXCEPT !.ed.lb = Lb!Bump(v3.ed.lb)]
 
@@ -570,5 +596,8 @@ Keys(c) ==
       [] c.k \in {"p", "P"} -> RegKeys(c.reg) \o CntKeys(c.c1) \o <<IF c.k = "p" THEN 112 ELSE 80>>
       [] c.k = "J" -> CntKeys(c.c1) \o <<74>>
       [] c.k = "r" -> CntKeys(c.c1) \o <<114, c.ch>>
+      [] c.k = "scr" -> CntKeys(c.c1) \o (CASE c.key = "^F" -> <<6>> [] c.key = "^B" -> <<2>> [] c.key = "^E" -> <<5>> [] c.key = "^Y" -> <<25>>
+                                            [] c.key = "^U" -> <<21>> [] c.key = "^D" -> <<4>> [] c.key = "zn" -> <<122, 10>>
+                                            [] c.key = "z." -> <<122, 46>> [] c.key = "z-" -> <<122, 45>>)
       [] c.k = "u" -> <<117>> [] c.k = "^R" -> <<18>> [] c.k = "m" -> <<109, c.ch>>
 =============================================================================
